@@ -43,7 +43,7 @@ ASSUMPTIONS = [
 ]
 SHARD_TIMEOUT = {'quick': 600, 'thorough': 3000}
 NSHARDS = {'quick': 16, 'thorough': 16}
-VARIANTS = {'quick': 3, 'thorough': 50}
+VARIANTS = {'quick': 4, 'thorough': 120}
 GUARDED = ('hook', 'zope')
 
 STATS = ('total', 'count', 'min', 'max', 'median', 'mean', 'variance', 'variance-n',
@@ -411,12 +411,10 @@ def subst(src, kind, p):
     for fam in U.FAMS:
         out = out.replace('@%s@' % fam, U.aname(fam, kind))
     den = kind == 'den'
-    ok_index = 0 if p['p'] != 0 else 1
     rep = {'@Q@': 'dseq' if den else 'seq', '@PQ@': 'dpseq' if den else 'pseq',
            '@MQ@': 'dmseq' if den else 'mseq', '@U@': 'ou_den' if den else 'ou_pub',
            '@K@': 'key_den' if den else 'key_pub', '@B@': 'b_mix' if den else 'b_pub',
-           '@QK@': 'den' if den else 'pub',
-           '@ix@': str(p['p'] if den else ok_index), '@pa@': str(p['p'] + 2), '@pb@': str(p['p']),
+           '@ix@': str(p['p'] if den else 0), '@pa@': str(p['p'] + 2), '@pb@': str(p['p']),
            '@pn@': str(p['p'] + 1), '@n1@': str(p['n'])}
     for k, v in rep.items():
         out = out.replace(k, v)
@@ -424,6 +422,7 @@ def subst(src, kind, p):
 
 
 TEMPLATES = {}
+NAME_RE = re.compile(r'\b(o|seq|pseq|tseq|dseq|dpseq|mseq|dmseq|mp|md_map|ou_pub|ou_den|root)\b')
 
 
 def get_template(cfg, flavour, src):
@@ -438,7 +437,10 @@ def get_template(cfg, flavour, src):
 
 def render(ch, kind, cfg, p, src, assign):
     w = U.World(cfg)
-    g = U.Graph(cfg, assign, p, w)
+    need = set(NAME_RE.findall(src))
+    if ch.client:
+        need.add('client')
+    g = U.Graph(cfg, assign, p, w, need)
     ns = dict(g.ns)
     ns.update(ch.extra)
     if ch.client == 'tuple' or (ch.client and p.get('client') == 'tuple'):
@@ -457,17 +459,47 @@ def render(ch, kind, cfg, p, src, assign):
             exc = e
     finally:
         U.CURRENT[0] = None
+    norm = Normaliser(w)
     if exc is not None:
         try:
             msg = str(exc)
         except Exception:      # zExceptions.Unauthorized.__str__ fails for a list argument (tree)
             msg = repr(getattr(exc, 'args', ''))
-        text = '%s: %s' % (type(exc).__name__, msg)
+        text = norm('%s: %s' % (type(exc).__name__, msg))
         obs = ('exc', type(exc).__name__)
     else:
-        text = out if isinstance(out, str) else str(out)
+        text = norm(out if isinstance(out, str) else str(out))
         obs = ('out', text)
-    return {'w': w, 'g': g, 'text': text, 'obs': obs, 'exc': exc, 'spy': list(w.spy_log)}
+    return {'w': w, 'g': g, 'text': text, 'obs': obs, 'exc': exc, 'spy': [norm(x) for x in w.spy_log]}
+
+
+class Normaliser:
+    """Observation clean-up, not an oracle: memory addresses of probe objects (the tree falls back to
+    id(node) when a node has no usable id attribute) are replaced by a constant, and the
+    base64/zlib/json tree-state blobs in tree links are decoded so that the same applies inside."""
+    BLOB = re.compile(r'(tree-[ec]=)([A-Za-z0-9_/+\-]{8,})')
+    NUM = re.compile(r'(?<![0-9])[0-9]{9,}(?![0-9])')
+
+    def __init__(self, w):
+        self.ids = set(str(id(o)) for o in w.keep)
+
+    def _num(self, m):
+        return '<pyid>' if m.group(0) in self.ids else m.group(0)
+
+    def _blob(self, m):
+        import base64
+        import zlib
+        raw = m.group(2).replace('-', '+')
+        try:
+            data = zlib.decompress(base64.b64decode(raw + '=' * (-len(raw) % 4))).decode('utf-8')
+        except Exception:
+            return m.group(0)
+        return m.group(1) + '<' + self.NUM.sub(self._num, data) + '>'
+
+    def __call__(self, text):
+        if 'tree-' in text:
+            text = self.BLOB.sub(self._blob, text)
+        return self.NUM.sub(self._num, text)
 
 
 BIGNUM = re.compile(r'(?<![0-9])[12]00[0-9]{4}(?![0-9])')
@@ -519,6 +551,11 @@ MECH = {
     ('tree-url', 'attr', 'TreeTag.try_call_attr<tpRenderTABLE'): 'plain-getattr:tree-url',
     ('tree-url', 'attr', 'TreeTag.tpRenderTABLE'): 'plain-getattr:tree-url',
     ('var-url', 'attr', 'DT_Var.render'): 'plain-getattr:var-url',
+    # expand_all: tpValuesIds walks the children without guarded_getitem; the id of a refused
+    # child ends up in the tree state (cookie / tree-state)
+    ('tree-item', 'item', 'TreeTag.extract_id'): 'raw-item:tree-expand-all',
+    ('tree-item', 'item', 'TreeTag.try_call_attr<extract_id'): 'raw-item:tree-expand-all',
+    ('tree-item', 'item', 'TreeTag.get_items'): 'raw-item:tree-expand-all',
 }
 MECH_NOGUARD = {
     ('fmt', 'attr', 'DT_Var.render'): 'underscore:fmt',
@@ -649,15 +686,15 @@ def run_case(ctx, ch, kind, cfg, gseed, record=True):
     ctx.table('outcome %s' % kind, '%s | %s' % (ch.id, outcome))
     ctx.table('cases per configuration', cfg)
     ctx.table('cases per family', ch.fam)
-    ctx.count('rendered:%s' % ch.id)
+    ctx.table('channel cases', ch.id)
     if cfg != 'none':
-        ctx.count('guardlog:%s' % ch.id, len(w.guard_log))
+        ctx.table('channel guard-log entries', ch.id, len(w.guard_log))
     if problems:
         if ch.info:
             ctx.table('informational (statement silent)', '%s %s %s: differs' % (ch.id, kind, cfg))
         else:
             mech, evidence = classify(ch, kind, cfg, res)
-            ctx.count('leaks:%s' % ch.id)
+            ctx.table('channel leaks', ch.id)
             detail = {'observed': {a: res[a]['text'][:400] for a in res},
                       'spy': {a: res[a]['spy'][:6] for a in res},
                       'unmediated raw reads': [list(e) for e in evidence][:8],
@@ -736,11 +773,14 @@ def finish(agg):
         if not routes.get(route + ' refused') or not routes.get(route + ' allowed'):
             inc.append('guard route %s never both allowed and refused' % route)
     chs = all_channels()
+    rendered = t.get('channel cases', {})
+    glog = t.get('channel guard-log entries', {})
+    leaks = t.get('channel leaks', {})
     for ch in chs:
-        if not c.get('rendered:' + ch.id):
+        if not rendered.get(ch.id):
             inc.append('channel of the matrix not rendered: ' + ch.id)
-        elif not ch.info and ch.kinds != ('prv',) and not c.get('guardlog:' + ch.id) \
-                and not c.get('leaks:' + ch.id):
+        elif not ch.info and ch.kinds != ('prv',) and not glog.get(ch.id) and not leaks.get(ch.id):
+            # (a channel that bypasses the guard altogether shows up as a leak instead)
             inc.append('guard log empty for guarded channel ' + ch.id)
     # every guard-refused variant must have touched its datum somewhere (the _private variants
     # are covered by the public control of the same channel: a refusal before any read leaves
